@@ -139,3 +139,155 @@ for _n, _op in COMPARE.items():
     add(_n, intr_op._IntrinsicComparison, _op)
 for _n, _op in UNARY.items():
     add(_n, intr_op._IntrinsicUnaryOp, _op, unary=True)
+
+
+# ---- element access: obj[index] -----------------------------------------------------------------------------------------------
+# A run-time index is SAMPLED where the subscript is written: the replacement creates a fresh temporary of the index's type,
+# builds the element reference over that temporary and returns both (index, temporary) so that the tracer emits
+# `temporary := index` at this point.  A reference that is kept (`x = vec[v]`) and used after the index variable changed
+# (`v @= v + 1`) still denotes the element selected when it was written (C03: program order; C02: the value of `vec[v]`).
+# A constant index / constant slice needs no sample: the reference itself is returned.
+from cohdl import Bit as _Bit, Temporary as _Temporary  # noqa: E402
+
+GETITEM_PROPS = ("C02", "C03", "C09", "C13")
+for _cls in (intr_op._IntrinsicConstElemAccess, intr_op._IntrinsicElemAccess):
+    I.register_inline(_cls.__dict__["__init__"])
+
+
+def getitem_spec(kind):
+    def spec(sx, self, arg):
+        real_self, real_arg = sx.real_args
+
+        def holds(res):
+            if kind == "constant":
+                if not (isinstance(res, SObj) and res.kind is intr_op._IntrinsicConstElemAccess):
+                    return False
+                r = res.fields["obj"]
+                return isinstance(r, SObj) and r.kind is _Res and r.fields["f_method"] == "__getitem__" and r.fields["f_self"] is real_self and r.fields["f_args"] == [real_arg]
+            if not (isinstance(res, SObj) and res.kind is intr_op._IntrinsicElemAccess):
+                return False
+            f = res.fields
+            temp, r = f["index_temp"], f["obj"]
+            if f["index"] is not real_arg:
+                return False
+            # the sample: a NEW temporary of the index's type, different from the index object
+            if not (isinstance(temp, SObj) and temp.kind is _Temporary and temp is not real_arg and temp.fields.get("f_fresh_of") is _Bit):
+                return False
+            return isinstance(r, SObj) and r.kind is _Res and r.fields["f_method"] == "__getitem__" and r.fields["f_self"] is real_self and len(r.fields["f_args"]) == 1 and r.fields["f_args"][0] is temp
+
+        return C.Pred(holds, "constant index: the reference itself; run-time index: reference over a fresh temporary that samples the index here")
+
+    return spec
+
+
+def _fresh_temp(it, args, kw):
+    return SObj(_Temporary, f_fresh_of=_Bit, _value=Opaque("sample"), _ref_spec=[])
+
+
+_gi = contract("cohdl._core._type_qualifier:TypeQualifier.<replacement of __getitem__>", GETITEM_PROPS)
+_gi.custom_fn = replacement_of("__getitem__")
+_INDEX_SHAPES = {
+    "int": ("constant", lambda env: 3),
+    "constant-slice": ("constant", lambda env: slice(7, 4)),
+    "signal": ("run-time", lambda env: SObj(TQM.Signal, f_tag="index", type=_Bit, _value=Opaque("i"), _ref_spec=[])),
+    "variable": ("run-time", lambda env: SObj(TQM.Variable, f_tag="index", type=_Bit, _value=Opaque("i"), _ref_spec=[])),
+    "temporary": ("run-time", lambda env: SObj(_Temporary, f_tag="index", type=_Bit, _value=Opaque("i"), _ref_spec=[])),
+    "slice-of-signal": ("run-time", lambda env: SObj(TQM.Signal, f_tag="index", type=_Bit, _value=Opaque("i"), _ref_spec=["<slice>"])),
+}
+for _name, (_kind, _mk) in _INDEX_SHAPES.items():
+    c = Case(f"index:{_name}", [SELF, Built([], _mk, lambda a: "<index>", lambda a: None)], getitem_spec(_kind))
+    c.native = False
+    c.models = [(TypeQualifier.__dict__["__getitem__"], method_model("__getitem__"))]
+    c.interp_flags = {"class_call_models": {_Temporary[_Bit]: _fresh_temp, _Temporary: _fresh_temp}}
+
+    def _gi_setup(it, ctx, args, env):
+        it.method_not_implemented = False
+
+    c.setup = _gi_setup
+    c.custom_replay = "contracts.c02_replace.replay_index_sample"
+    _gi.cases.append(c)
+
+
+_INDEX_SAMPLE_DESIGN = '''
+from cohdl import Entity, Port, Bit, BitVector, Unsigned, Variable, std
+class E(Entity):
+    clk = Port.input(Bit)
+    vec = Port.input(BitVector[4])
+    start = Port.input(Unsigned[2])
+    o = Port.output(Bit)
+    def architecture(self):
+        @std.sequential(std.Clock(self.clk))
+        def proc():
+            idx = Variable[Unsigned[2]](self.start)
+            first = self.vec[idx]          # the element selected NOW
+            idx @= idx + 1
+            self.o <<= first               # still vec[start], not vec[start + 1]
+import re
+t = std.VhdlCompiler.to_string(E)
+proc = [l.strip() for l in t[t.index("proc:"):].splitlines()]
+read = next(l for l in proc if "vec(to_integer(" in l)
+index_name = re.search(r"to_integer\\((\\w+)\\)", read).group(1)
+writes_of_var = [i for i, l in enumerate(proc) if l.startswith("var :=")]          # var := start;  ...  var := <var + 1>;
+sample = [i for i, l in enumerate(proc) if l == index_name + " := var;"]
+ok = index_name != "var" and sample and writes_of_var[0] < sample[0] < writes_of_var[-1]
+print("SAMPLED" if ok else "NOT-SAMPLED", read, [proc[i] for i in sample])
+'''
+
+
+def replay_index_sample(payload):
+    from contracts.c06_extra import _run_design
+
+    rc, out = _run_design(_INDEX_SAMPLE_DESIGN)
+    return {"reproduced": rc == 0 and "NOT-SAMPLED" in out, "detail": out[-400:]}
+
+
+# ---- comparisons with the untyped constants Null / Full -------------------------------------------------------------------------
+# `x != Full`, `x == Null`, `x < Full` ...: Null / Full have no width of their own; the comparison recorded in the IR carries a
+# literal of the LEFT operand's type (self.type(Null) / self.type(Full)) -- the placeholder object itself cannot be written as
+# VHDL.  All six comparison replacements, both constants.
+from cohdl import Null as _Null, Full as _Full  # noqa: E402
+
+
+class _TypedLiteral:
+    """stands for self.type(constant): the literal of the operand's type"""
+
+    def __init__(self, value):
+        self.value = value
+
+
+I.register_inline(_TypedLiteral.__init__)
+SELF_TYPED = Built([], lambda env: SObj(TypeQualifier, f_tag="self", _value=Opaque("v"), _ref_spec=[], type=_TypedLiteral), lambda a: "<tq>", lambda a: None)
+
+
+def fill_spec(name, op, const):
+    def spec(sx, self, other):
+        real_self = sx.real_args[0]
+
+        def holds(res):
+            if not (isinstance(res, SObj) and res.kind is intr_op._IntrinsicComparison):
+                return False
+            f = res.fields
+            rhs = f.get("rhs")
+            if f.get("op") is not op or f.get("lhs") is not real_self:
+                return False
+            if isinstance(rhs, _TypedLiteral):  # concrete argument: the engine builds the real object
+                return rhs.value is const
+            return isinstance(rhs, SObj) and rhs.kind is _TypedLiteral and rhs.fields.get("value") is const
+
+        return C.Pred(holds, f"comparison {op.name} of self with the literal self.type({const!r})")
+
+    return spec
+
+
+for _n, _op in COMPARE.items():
+    _con = contract(f"cohdl._core._type_qualifier:TypeQualifier.<replacement of {_n}>", PROPS + ("C06",))
+    for _const, _cname in ((_Null, "Null"), (_Full, "Full")):
+        c = Case(f"other-is-{_cname}", [SELF_TYPED, Built([], (lambda k: lambda env: k)(_const), lambda a: "<const>", lambda a: None)], fill_spec(_n, _op, _const))
+        c.native = False
+        c.models = MODELS
+
+        def _fill_setup(it, ctx, args, env):
+            it.method_not_implemented = False
+
+        c.setup = _fill_setup
+        _con.cases.append(c)
